@@ -741,6 +741,10 @@ namespace
         static constexpr auto name = "v_derrrec";
         static void           eval(Scalar<"id", Int> id, In<"d", DErr> d, NodeView self, DateTime now)
         {
+            long nmod = 0, nrem = 0;
+            for (auto [key, child] : d.modified_items()) { nmod += child.valid() ? 1 : 0; }
+            for (auto [key, child] : d.removed_items()) { ++nrem; }
+            J("kerrtick").i("id", id.value()).i("t", to_k(now)).i("nmod", nmod).i("nrem", nrem).emit();
             for (auto [key, child] : d.modified_items())
             {
                 if (!child.valid()) { continue; }
